@@ -312,6 +312,9 @@ namespace ip {
 		abort_recv_handlers();
 		abort_send_handlers();
 
+		// a connect that is being refused
+		m_connect_timer.cancel();
+
 		if (m_connect_handler)
 		{
 			post(m_io_service, aux::make_malloc(std::bind(std::move(m_connect_handler)
@@ -395,7 +398,11 @@ namespace ip {
 			m_channel.reset();
 			// TODO: ask the policy object what the round-trip to this endpoint is
 			m_connect_timer.expires_after(chrono::milliseconds(50));
-			m_connect_timer.async_wait(aux::make_malloc(std::bind(std::move(h), ec)));
+			// when the wait is aborted (cancel, close, destruction) the connect
+			// completes with that error instead of the refusal
+			m_connect_timer.async_wait(aux::make_malloc(
+				[h = std::move(h), ec](boost::system::error_code const& e) mutable
+				{ h(e ? e : ec); }));
 			return;
 		}
 
